@@ -142,10 +142,19 @@ class Token(str):
         if self.is_space():
             return True
 
-        for ws in reversed(self.grammar.whitespace):
-            temp = self.replace(ws, " ")
+        # Only this grammar's white space characters separate the
+        # pieces: str.split() without an argument would also split at
+        # (and so swallow) characters such as U+00A0 or U+001C, which
+        # are ordinary characters to PVL.
+        temp = str(self)
+        for ws in self.grammar.whitespace:
+            temp = temp.replace(ws, " ")
 
-        return all(t.is_comment() for t in temp.split())
+        return all(
+            Token(t, grammar=self.grammar, decoder=self.decoder).is_comment()
+            for t in temp.split(" ")
+            if t != ""
+        )
 
     def is_comment(self) -> bool:
         """Return true if the Token is a comment according to the
